@@ -17,6 +17,7 @@ use std::collections::{BTreeMap, HashMap};
 use std::sync::Arc;
 verus! {
 global size_of usize == 8;
+broadcast use vstd::std_specs::btree::group_btree_axioms;
 
 //@ include prelude/setops_merklehash.rs
 type HMACKey = MerkleHash;
@@ -184,7 +185,7 @@ proof fn lemma_entries_from_iter<V>(r: Seq<(&MerkleHash, &V)>, m: Map<MerkleHash
     axiom_increasing_seq_meaning::<MerkleHash>(ks);
     assert forall|i: int, j: int| 0 <= i < j < s.len() implies hash_lt((#[trigger] s[i]).0, (#[trigger] s[j]).0) by {
         assert(ks[i] == s[i].0 && ks[j] == s[j].0);
-        assert(ks[i].cmp_spec(&ks[j]) == Ordering::Less);
+        assert(vstd::std_specs::cmp::OrdSpec::cmp_spec(&ks[i], &ks[j]) == Ordering::Less);
     }
     assert forall|i: int| 0 <= i < s.len() implies m.contains_key((#[trigger] s[i]).0) && m[s[i].0] == s[i].1 by {
         assert(m.contains_key(*r[i].0));
